@@ -43,7 +43,10 @@ func here(skip int) (string, int) {
 	return lastTwo(file), line
 }
 
-const NumForms = 4
+const NumForms = 6
+
+// FormTakesAttrs reports whether the entry point of this form accepts attributes (the printf-style ones do not).
+func FormTakesAttrs(form int) bool { return form%NumForms < 4 }
 
 // Emit logs one record through one of the Logger's entry points and returns the source position
 // (last two path elements of the file, line) of the logging call.
@@ -65,6 +68,34 @@ func Emit(l *logger.Logger, form int, level slog.Level, msg string, nodes []Node
 		file, line = here(1)
 		l.LogAttrs(ctx, level, msg, attrs...)
 		return file, line + 1
+	case 4:
+		// printf-style entry point: the message goes through a %s verb, attributes cannot be passed
+		file, line = here(1)
+		l.Logf(ctx, level, "%s", msg)
+		return file, line + 1
+	case 5:
+		switch level {
+		case logger.LevelDebug:
+			file, line = here(1)
+			l.Debugf("%s", msg)
+			return file, line + 1
+		case logger.LevelInfo:
+			file, line = here(1)
+			l.Infof("%s", msg)
+			return file, line + 1
+		case logger.LevelWarn:
+			file, line = here(1)
+			l.Warnf("%s", msg)
+			return file, line + 1
+		case logger.LevelError:
+			file, line = here(1)
+			l.Errorf("%s", msg)
+			return file, line + 1
+		default:
+			file, line = here(1)
+			l.Logf(ctx, level, "%s%s", msg, "")
+			return file, line + 1
+		}
 	default:
 		args := Args(nodes, false)
 		switch level {
